@@ -155,24 +155,32 @@ def run_pps(F, R, rule, entry_names, kinds, cha_crates, registry_names=None, arm
                 R.undecided(rule, inst, "reachable %s site outside the armed scope (not triaged)" % s.kind, s.loc)
                 hist["undecided"] += 1
                 continue
-            how = discharge_const(s) or D.cond_rule(s) or D.folded_const_rule(s) or D.split_checked_rule(s) or D.type_rule(s) or D.guard_rule(s) or D.size_rule(s)
+            how = discharge_const(s) or D.cond_rule(s) or D.folded_const_rule(s) or D.split_checked_rule(s) or D.type_rule(s) or D.guard_rule(s) or D.widened_rule(s) or D.size_rule(s)
             if how:
                 R.ok(rule, inst, how, s.loc, how=how.split(":")[0])
                 hist[how.split(":")[0]] += 1
                 continue
-            if inst in audited and (not audited[inst].get("props") or R.pid in audited[inst]["props"]):
+            ent = audited.get(inst)
+            if ent is not None and R.pid in ent.get("by_prop", {}):
+                # the same callee-level site argued separately per property (different callers reach it)
+                ent = ent["by_prop"][R.pid]
+            elif ent is not None and ent.get("props") and R.pid not in ent["props"]:
+                ent = None
+            elif ent is not None and "why" not in ent:
+                ent = None
+            if ent is not None:
                 used.add(inst)
-                req = audited[inst].get("requires")
+                req = ent.get("requires")
                 if req:
                     okk, why = check_requires(F, cg, req, fn, s, D)
                     if not okk:
                         hist["requires-failed"] += 1
                         R.violation(rule, inst, "the audited invariant for this site no longer holds: %s (site: %s `%s`)" % (why, fn.name, s.snip[:70]), s.loc)
                         continue
-                    R.ok(rule, inst, "audited: %s [re-checked: %s]" % (audited[inst]["why"], why), s.loc, how="audited+requires")
+                    R.ok(rule, inst, "audited: %s [re-checked: %s]" % (ent["why"], why), s.loc, how="audited+requires")
                     hist["audited+requires"] += 1
                     continue
-                R.ok(rule, inst, "audited: " + audited[inst]["why"], s.loc, how="audited")
+                R.ok(rule, inst, "audited: " + ent["why"], s.loc, how="audited")
                 hist["audited"] += 1
                 continue
             hist["undischarged"] += 1
